@@ -201,9 +201,11 @@ func (h *host) getCPUPlans(cpuRequest float64) []types.CPUMap {
 	}
 
 	if full == 0 {
-		diff := h.maxFragmentCores - len(h.fragmentCores)
-		h.fragmentCores = append(h.fragmentCores, h.fullCores[:diff]...)
-		h.fullCores = h.fullCores[diff:]
+		// the node may already carry more fragment cores than max-share allows
+		if diff := h.maxFragmentCores - len(h.fragmentCores); diff > 0 {
+			h.fragmentCores = append(h.fragmentCores, h.fullCores[:diff]...)
+			h.fullCores = h.fullCores[diff:]
+		}
 		return h.getFragmentCPUPlans(h.fragmentCores, fragment)
 	}
 
